@@ -21,6 +21,14 @@ CHECKS = {
         "Trusts vf/refcodec.py (LT = multiplier x base; header layouts) and the harness link layer that captures LinkLayer.send(); "
         "requests >= 1 000 000 ms are a recorded known finding (pinned by the unit tests).",
     ),
+    "C02": (
+        "differential against an independent reference codec: hypothesis-generated field vectors and requests, per-field exhaustive sweeps",
+        "Every header encoder/decoder and every packet the router originates or forwards (beacon, SHB, GBC/GAC, GUC, LS request/reply, "
+        "forwarded TSB/GBC/GAC/GUC/LS, BTP-A/B) is compared octet for octet / field for field with an independently written codec; all "
+        "fields up to 16 bits are swept exhaustively at 8 base vectors, wider fields are boundary-biased samples.",
+        "Trusts vf/refcodec.py as a faithful transcription of EN 302 636-4-1 V1.4.1 clause 9 and EN 302 636-5-1 clause 7; LT octets are compared by "
+        "value (the base choice is not prescribed); secured packets are covered by C05, not here.",
+    ),
 }
 
 NOT_APPLICABLE = {
